@@ -4,13 +4,21 @@
 (* and exhaustively with small constants for the invariants.                        *)
 EXTENDS RVSystem, Json
 CONSTANTS NM, NP, MaxSlots, MaxLinks, MaxStep, Emit, Lists,
-          Focus     \* "all", or the name of an action subset on which simulated behaviours concentrate
+          Focus,    \* "all", or the name of an action subset on which simulated behaviours concentrate
+          EmitK, EmitSel   \* exhaustive mode: print every transition whose hash % EmitK = EmitSel (0: none) for replay with state injection
 VARIABLES w, step, hist        \* hist: the requests made so far (only when Emit), printed at the end of a simulated behaviour
 Init == w = InitW(NM, NP) /\ step = 0 /\ hist = <<>>
 FocusActs == [multictl |-> {"attach", "connect", "saveload", "set_map", "feed", "attach_none"},
               patterns |-> {"attach", "attach_end", "attach_none", "attach_pattern", "saveload", "bulk_edit", "set_note_mod", "get_note_mod"}]
 Allowed(act) == IF Focus = "all" THEN TRUE ELSE act \in FocusActs[Focus]
-Do(act, args, r) == /\ Allowed(act) /\ step < MaxStep /\ \E q \in r.posts : w' = q /\ step' = step + 1
+SumQ(q) == FoldLeft(LAMBDA a, x : a + x + 2, 0, q)
+HashW(x) == FoldLeft(LAMBDA a, m : a + m * SumQ(x.t[m].inl) + (m + 3) * SumQ(x.t[m].outs) + 5 * x.vol[m], 0, [m \in 1..NM |-> m])
+            + 7 * SumQ(x.p.slots[1]) + 11 * SumQ(x.p.slots[2]) + 13 * SumQ(x.map) + SumQ(x.p.nmod)
+EmitT(act, args, r) ==
+  IF EmitK = 0 \/ (HashW(w) + Len(act)) % EmitK # EmitSel % EmitK THEN TRUE
+  ELSE PrintT(ToJson([k |-> "T", pre |-> w, act |-> act, args |-> args, outcome |-> r.outcome, posts |-> SetToSeq(r.posts), ret |-> r.ret]))
+View == w       \* (exhaustive mode: the step counter and the history are not part of the state's identity)
+Do(act, args, r) == /\ Allowed(act) /\ step < MaxStep /\ EmitT(act, args, r) /\ \E q \in r.posts : w' = q /\ step' = step + 1
                     /\ hist' = IF Emit THEN Append(hist, [act |-> act, args |-> args, outcome |-> r.outcome, ret |-> r.ret, post |-> w', posts |-> SetToSeq(r.posts)]) ELSE hist
 (* evaluated on the states of the simulated behaviour: prints the complete history once the behaviour is MaxStep long *)
 EmitHist == step < MaxStep \/ ~Emit \/ PrintT(ToJson([k |-> "H", hist |-> hist]))
